@@ -1758,6 +1758,27 @@ def simplify(e):
            -len(n.value.elts) <= n.slice.value < len(n.value.elts) and \
            not any(isinstance(x, ast.Starred) for x in n.value.elts):
             return simplify(n.value.elts[n.slice.value])
+        if isinstance(n, ast.Call) and isinstance(n.func, ast.Name) and n.func.id == 'isinstance' and len(n.args) == 2 and \
+           not n.keywords and isinstance(n.args[1], ast.Name) and n.args[1].id == 'str':
+            # a helper that hands back either a value or the text of a message: which one is known per path
+            x_ = n.args[0]
+            is_text = (isinstance(x_, ast.Constant) and isinstance(x_.value, str)) or isinstance(x_, ast.JoinedStr) or \
+                (isinstance(x_, ast.BinOp) and isinstance(x_.op, ast.Mod) and isinstance(x_.left, ast.Constant) and
+                 isinstance(x_.left.value, str)) or \
+                (isinstance(x_, ast.Call) and isinstance(x_.func, ast.Attribute) and x_.func.attr == 'format' and
+                 isinstance(x_.func.value, ast.Constant) and isinstance(x_.func.value.value, str))
+            if is_text:
+                return ast.Constant(value=True)
+            if (isinstance(x_, ast.Name) and re.fullmatch(r'_obj\d+', x_.id)) or \
+               (isinstance(x_, ast.Constant) and not isinstance(x_.value, str)) or \
+               isinstance(x_, (ast.Tuple, ast.List, ast.Dict, ast.Set)):
+                return ast.Constant(value=False)
+        if isinstance(n, ast.Subscript) and isinstance(n.value, ast.Dict) and isinstance(n.slice, ast.Constant) and \
+           all(isinstance(k_, ast.Constant) for k_ in n.value.keys):
+            hit = [v_ for k_, v_ in zip(n.value.keys, n.value.values) if k_.value == n.slice.value and
+                   type(k_.value) is type(n.slice.value)]
+            if len(hit) == 1:
+                return simplify(hit[0])     # an entry of a constant table
         if isinstance(n, ast.Compare) and len(n.ops) == 1 and isinstance(n.ops[0], (ast.Is, ast.IsNot)) and \
            isinstance(n.comparators[0], ast.Constant) and n.comparators[0].value is None:
             l_ = n.left
@@ -2084,6 +2105,32 @@ def module_constants(module):
     # constants (mu_0, epsilon_0 ...) are physical quantities that formulas refer to by name
     out = {nm: v for nm, v in vals.items() if counts.get(nm) == 1 and literal(v) and
            (isinstance(v, ast.Tuple) or (isinstance(v, ast.Constant) and isinstance(v.value, str)) or nm.startswith('_'))}
+    # tables kept as dicts with literal keys and values (NAME = dict(a=(1, 2), ...) / {...}), never changed in the module
+    for nm, v in vals.items():
+        if counts.get(nm) != 1 or nm in out:
+            continue
+        d = None
+        if isinstance(v, ast.Call) and isinstance(v.func, ast.Name) and v.func.id == 'dict' and not v.args and v.keywords and \
+           all(k_.arg is not None and literal(k_.value) for k_ in v.keywords):
+            d = ast.Dict(keys=[ast.Constant(value=k_.arg) for k_ in v.keywords], values=[k_.value for k_ in v.keywords])
+        elif isinstance(v, ast.Dict) and v.keys and all(k_ is not None and isinstance(k_, ast.Constant) for k_ in v.keys) and \
+                all(literal(x_) for x_ in v.values):
+            d = v
+        if d is None:
+            continue
+        touched = False
+        for x_ in ast.walk(module.tree):
+            if isinstance(x_, ast.Name) and x_.id == nm and isinstance(x_.ctx, ast.Load):
+                par = parent(x_)
+                if isinstance(par, ast.Subscript) and par.value is x_ and isinstance(par.ctx, ast.Load):
+                    continue
+                if isinstance(par, (ast.For, ast.comprehension)) and par.iter is x_:
+                    continue
+                if isinstance(par, ast.Compare) and x_ in par.comparators:
+                    continue
+                touched = True      # handed on, a method called on it, stored into: may be changed
+        if not touched:
+            out[nm] = d
     # private names computed once from literals, other constants and module-level functions
     # (_ROW = '%s ' * 4, _ZERO = sep.join(['E '] + ['0'] * 4), _HEAD = 'A%sB' % _spaces(3, 4))
     funcs = {st.name for st in module.tree.body if isinstance(st, ast.FunctionDef)}
